@@ -1,0 +1,239 @@
+//go:build verif
+
+// Contracts for the deductive verification in /verif (govc), area x509sig: public-key
+// parsing, signature checks and the signing call sites of the Create* functions
+// (properties C01, C02, C03, C20). This file contains comments only; it is compiled only
+// with -tags verif and declares nothing.
+
+package x509
+
+//@ global ErrUnsupportedAlgorithm != nil
+//@ global ErrUnsupportedEllipticCurve != nil
+
+// ---------------------------------------------------------------- signature algorithm table
+// Written from the standards, not from signatureAlgorithmDetails:
+//   RFC 3279 2.2.1  md2/md5/sha-1WithRSAEncryption: RSASSA-PKCS1-v1_5 with MD2/MD5/SHA-1
+//   RFC 3279 2.2.2  id-dsa-with-sha1: DSA with SHA-1;  2.2.3 ecdsa-with-SHA1
+//   RFC 4055 5      sha256/384/512WithRSAEncryption: RSASSA-PKCS1-v1_5 with SHA-256/384/512
+//   RFC 4055 3      id-RSASSA-PSS: hash named in the parameters; zcrypto/Go support the three
+//                   parameter sets SHA-256/384/512 with MGF1 over the same hash and salt
+//                   length = hash length
+//   RFC 5758 3.1    dsa-with-sha256;  3.2 ecdsa-with-SHA256/384/512
+//   RFC 8410 3, 6   id-Ed25519: PureEdDSA, the message is signed directly (no pre-hash)
+//@ pred sigIsPSS(a) = a == SHA256WithRSAPSS || a == SHA384WithRSAPSS || a == SHA512WithRSAPSS
+//@ pred sigIsRSA15(a) = a == MD2WithRSA || a == MD5WithRSA || a == SHA1WithRSA || a == SHA256WithRSA || a == SHA384WithRSA || a == SHA512WithRSA
+//@ pred sigIsDSA(a) = a == DSAWithSHA1 || a == DSAWithSHA256
+//@ pred sigIsECDSA(a) = a == ECDSAWithSHA1 || a == ECDSAWithSHA256 || a == ECDSAWithSHA384 || a == ECDSAWithSHA512
+//@ pred sigKeyAlgo(a) = ite(sigIsPSS(a) || sigIsRSA15(a), RSA, ite(sigIsDSA(a), DSA, ite(sigIsECDSA(a), ECDSA, ite(a == Ed25519Sig, Ed25519, UnknownPublicKeyAlgorithm))))
+// crypto.Hash identifiers: MD5 = 2, SHA1 = 3, SHA256 = 5, SHA384 = 6, SHA512 = 7; 0 = the
+// message itself is signed (Ed25519) / no implementation (MD2).
+//@ pred sigHash(a) = ite(a == MD5WithRSA, crypto.MD5, ite(a == SHA1WithRSA || a == DSAWithSHA1 || a == ECDSAWithSHA1, crypto.SHA1, ite(a == SHA256WithRSA || a == SHA256WithRSAPSS || a == DSAWithSHA256 || a == ECDSAWithSHA256, crypto.SHA256, ite(a == SHA384WithRSA || a == SHA384WithRSAPSS || a == ECDSAWithSHA384, crypto.SHA384, ite(a == SHA512WithRSA || a == SHA512WithRSAPSS || a == ECDSAWithSHA512, crypto.SHA512, crypto.Hash(0))))))
+// algorithms that can be verified at all: everything in the table except MD2 (no MD2
+// implementation exists in Go; documented as InsecureAlgorithmError)
+//@ pred sigVerifiable(a) = (sigIsPSS(a) || sigIsRSA15(a) || sigIsDSA(a) || sigIsECDSA(a) || a == Ed25519Sig) && a != MD2WithRSA
+
+// ---------------------------------------------------------------- well-formed public keys
+// What a public key object must look like for the verification primitives (documented
+// preconditions: ed25519.Verify panics unless the key has 32 bytes; rsa/dsa/ecdsa
+// dereference every component). RFC 8410 3: an Ed25519/X25519 public key is 32 octets.
+// The preds keyOK (= keyOKbase && edKeyOK) / rsaKeyOK / dsaKeyOK / ecKeyOK / augKeyOK are defined in
+// /verif/extern/x509sig.contracts (global, so that callers in other packages can name them).
+
+// isRSAPSS: exactly the three RSASSA-PSS parameter sets of the table.
+//@ func (SignatureAlgorithm).isRSAPSS
+//@   ensures result <==> sigIsPSS(algo)
+//@   terminates
+
+// keyAlgo (added by fix 759c08e): the key type a signature algorithm is defined for.
+//@ func (SignatureAlgorithm).keyAlgo
+//@   ensures result == sigKeyAlgo(algo)
+//@   terminates
+
+//@ func namedCurveFromOID
+//@   ensures result1 == nil ==> result0 != nil
+//@   ensures result1 != nil ==> result0 == nil
+//@   terminates
+
+// parsePublicKey (C01 "public-key sanity checks before use"; C20: permissive mode only
+// skips the sign checks of the RSA numbers).
+//@ func parsePublicKey
+//@   requires keyData != nil && keyData.PublicKey.BitLength >= 0
+//@   ensures  [err] result1 != nil ==> result0 == nil
+//@   ensures  [wellformed] result1 == nil ==> keyOKbase(result0)
+//@   ensures  [rsa] algo == RSA && result1 == nil ==> typeis(result0, *zcrypto_rsa.PublicKey) && fresh(unboxed(result0, *zcrypto_rsa.PublicKey))
+//@   ensures  [rsa_strict] algo == RSA && result1 == nil && !asn1.AllowPermissiveParsing ==> bpos(unboxed(result0, *zcrypto_rsa.PublicKey).N) && bpos(unboxed(result0, *zcrypto_rsa.PublicKey).E)
+//@   ensures  [dsa] algo == DSA && result1 == nil ==> typeis(result0, *zcrypto_dsa.PublicKey) && bpos(unboxed(result0, *zcrypto_dsa.PublicKey).P) && bpos(unboxed(result0, *zcrypto_dsa.PublicKey).Q) && bpos(unboxed(result0, *zcrypto_dsa.PublicKey).G) && bpos(unboxed(result0, *zcrypto_dsa.PublicKey).Y)
+//@   ensures  [ecdsa] algo == ECDSA && result1 == nil ==> typeis(result0, *AugmentedECDSA)
+//@   ensures  [ed25519] algo == Ed25519 && result1 == nil ==> typeis(result0, x_crypto_ed25519.PublicKey)
+//@   ensures  [ed25519len] result1 == nil ==> edKeyOK(result0)
+//@   ensures  [x25519] algo == X25519 && result1 == nil ==> typeis(result0, X25519PublicKey)
+//@   ensures  [x25519len] result1 == nil && typeis(result0, X25519PublicKey) ==> len(unboxed(result0, X25519PublicKey)) == 32
+//@   ensures  [unknown] algo != RSA && algo != DSA && algo != ECDSA && algo != Ed25519 && algo != X25519 ==> result0 == nil && result1 == nil
+//@   modifies nothing
+//@   terminates
+
+// hash: the digest handed to the verification primitive - the message itself when no hash
+// is used (Ed25519), otherwise the hashFunc digest of raw (New, Write(raw), Sum(nil)).
+//@ func hash
+//@   requires hashFunc == 0 || (1 <= hashFunc && hashFunc < 20)
+//@   ensures  hashFunc == 0 ==> same(result, raw)
+//@   ensures  hashFunc != 0 ==> 1 <= len(result) && len(result) <= 64
+//@   at call New assert arg0 == hashFunc
+//@   at call Write assert same(arg1, raw)
+//@   at call Sum assert arg1 == nil
+//@   modifies nothing
+//@   terminates
+
+// CheckSignatureFromKey (C03 "algorithm to hash mapping"; C01/C02: total for every key
+// parsePublicKey returns and every algorithm / signature value).
+//@ func CheckSignatureFromKey
+//@   requires keyOK(publicKey)
+//@   uses perreturn
+//@   ensures  [unsupported] !sigVerifiable(algo) ==> err != nil
+//@   ensures  [keytype] err == nil ==> (sigKeyAlgo(algo) == RSA && typeis(publicKey, *zcrypto_rsa.PublicKey)) || (sigKeyAlgo(algo) == DSA && typeis(publicKey, *zcrypto_dsa.PublicKey)) || (sigKeyAlgo(algo) == ECDSA && (typeis(publicKey, *ecdsa.PublicKey) || typeis(publicKey, *AugmentedECDSA))) || (sigKeyAlgo(algo) == Ed25519 && typeis(publicKey, x_crypto_ed25519.PublicKey))
+//@   ensures  [rsa_siglen] err == nil && typeis(publicKey, *zcrypto_rsa.PublicKey) ==> len(signature) == (blen(unboxed(publicKey, *zcrypto_rsa.PublicKey).N) + 7) / 8
+//@   at call hash assert arg0 == sigHash(algo) && same(arg1, signed)
+//@   at call VerifyPKCS1v15 assert !sigIsPSS(algo) && arg1 == sigHash(algo) && same(arg2, digest) && same(arg3, signature)
+//@   at call VerifyPSS assert sigIsPSS(algo) && arg1 == sigHash(algo) && same(arg2, digest) && same(arg3, signature) && arg4 != nil && arg4.SaltLength == -1
+//@   at call dsa.Verify assert same(arg1, digest)
+//@   at call ecdsa.Verify assert same(arg1, digest)
+//@   at call ed25519.Verify assert same(arg1, digest) && same(arg2, signature)
+//@   modifies ghost.bigEq, ghost.bigStr
+//@   terminates
+
+//@ func (*Certificate).CheckSignature
+//@   requires c != nil && keyOK(c.PublicKey)
+//@   ensures  [unsupported] !sigVerifiable(algo) ==> err != nil
+//@   modifies ghost.bigEq, ghost.bigStr
+//@   terminates
+
+// The other entry points that hand a parsed key to CheckSignatureFromKey (C02/C03: CSRs,
+// revocation lists and CRLs verify through the same function). ghost.sigOK is the event
+// relation that the OCSP area attaches to (*Certificate).CheckSignature (extern refine in
+// /verif/extern/ocsp.contracts); ghost.bigEq / ghost.bigStr are the opaque views of math/big
+// values (bigint.contracts) that the rsa/dsa verifiers disturb through their temporaries.
+// Nothing else changes.
+//@ func (*CertificateRequest).CheckSignature
+//@   requires c != nil && keyOK(c.PublicKey)
+//@   ensures  [unsupported] !sigVerifiable(c.SignatureAlgorithm) ==> result != nil
+//@   modifies ghost.bigEq, ghost.bigStr
+//@   terminates
+
+//@ func (*RevocationList).CheckSignatureFrom
+//@   requires rl != nil && parent != nil && keyOK(parent.PublicKey)
+//@   ensures  [unsupported] !sigVerifiable(rl.SignatureAlgorithm) ==> result != nil
+//@   modifies ghost.sigOK, ghost.bigEq, ghost.bigStr
+//@   terminates
+
+//@ func (*Certificate).CheckCRLSignature
+//@   requires c != nil && crl != nil && keyOK(c.PublicKey) && crl.SignatureValue.BitLength >= 0
+//@   modifies ghost.sigOK, ghost.bigEq, ghost.bigStr
+//@   terminates
+
+// (*Certificate).CheckSignatureFrom: its contract lives in zz_verif_contracts_certpool.go (C07
+// clauses); it reaches the verification primitives only through (*Certificate).CheckSignature.
+
+// ---------------------------------------------------------------- signing side (C03)
+// RFC 4055 3.1: id-RSASSA-PSS OBJECT IDENTIFIER ::= { pkcs-1 10 } = 1.2.840.113549.1.1.10
+//@ pred oidIsPSS(o) = len(o) == 7 && o[0] == 1 && o[1] == 2 && o[2] == 840 && o[3] == 113549 && o[4] == 1 && o[5] == 1 && o[6] == 10
+// "The algorithm identifier is the RSASSA-PSS one": it is the package's oidSignatureRSAPSS
+// value (same slice), whose content is id-RSASSA-PSS.
+//@ pred isPSSOid(o) = same(o, oidSignatureRSAPSS)
+// The package-level table agrees with the table of the standards above, row by row: hash,
+// key type, and "the OID is oidSignatureRSAPSS exactly for the PSS algorithms"; the default
+// algorithm identifiers are other variables. Global invariants are established by the
+// package initialiser, which govc does not verify: these are ASSUMPTIONS about the composite
+// literal signatureAlgorithmDetails and the oid variables (see notes).
+//@ pred tblRow(i) = signatureAlgorithmDetails[i].algo != UnknownSignatureAlgorithm && signatureAlgorithmDetails[i].hash == sigHash(signatureAlgorithmDetails[i].algo) && signatureAlgorithmDetails[i].pubKeyAlgo == sigKeyAlgo(signatureAlgorithmDetails[i].algo) && (isPSSOid(signatureAlgorithmDetails[i].oid) <==> sigIsPSS(signatureAlgorithmDetails[i].algo))
+// tblAddr: instantiation trigger (the address of row i); a pred so that it is always built from
+// the package variable's current value, never from an SSA temporary.
+//@ pred tblAddr(i) = &signatureAlgorithmDetails[i]
+//@ pred tblLen() = len(signatureAlgorithmDetails)
+//@ pred tblVar() = signatureAlgorithmDetails
+//@ global forall(i, 0, tblLen(), tblRow(i))
+//@ global oidIsPSS(oidSignatureRSAPSS) && !isPSSOid(oidSignatureSHA256WithRSA) && !isPSSOid(oidSignatureECDSAWithSHA256) && !isPSSOid(oidSignatureECDSAWithSHA384) && !isPSSOid(oidSignatureECDSAWithSHA512) && !isPSSOid(oidKeyEd25519)
+//@ pred pubKeyAlgoOf(pub) = ite(typeis(pub, *zcrypto_rsa.PublicKey), RSA, ite(typeis(pub, *ecdsa.PublicKey), ECDSA, ite(typeis(pub, x_crypto_ed25519.PublicKey), Ed25519, UnknownPublicKeyAlgorithm)))
+
+// signingParamsForPublicKey ("returns the parameters to use for signing with priv. If
+// requestedSigAlgo is not zero then it overrides the default signature algorithm"): the
+// hash handed back is the hash of the requested algorithm, the algorithm identifier is
+// id-RSASSA-PSS exactly for the PSS algorithms, and an algorithm that does not fit the key
+// type, is unknown, or has no hash implementation (MD2) is an error.
+//@ func signingParamsForPublicKey
+//@   requires typeis(pub, *ecdsa.PublicKey) ==> unboxed(pub, *ecdsa.PublicKey) != nil
+//@   assume_pure rsaPSSParameters
+//@   uses perreturn
+//@   loop 1 invariant same(signatureAlgorithmDetails, tblVar()) && same(tblVar(), old(tblVar())) && same(oidSignatureRSAPSS, old(oidSignatureRSAPSS))
+//@   loop 1 invariant forall(k, 0, tblLen(), tblRow(k))
+//@   loop 1 invariant forall(k, 0, it, signatureAlgorithmDetails[k].algo != requestedSigAlgo)
+//@   ensures  [hash] err == nil && requestedSigAlgo != 0 ==> hashFunc == sigHash(requestedSigAlgo)
+//@   ensures  [pssoid] err == nil && requestedSigAlgo != 0 ==> (isPSSOid(sigAlgo.Algorithm) <==> sigIsPSS(requestedSigAlgo))
+//@   ensures  [keymatch] err == nil && requestedSigAlgo != 0 ==> pubKeyAlgoOf(pub) == sigKeyAlgo(requestedSigAlgo)
+//@   ensures  [md2] requestedSigAlgo == MD2WithRSA ==> err != nil
+//@   ensures  [unknown] requestedSigAlgo != 0 && sigKeyAlgo(requestedSigAlgo) == UnknownPublicKeyAlgorithm ==> err != nil
+//@   ensures  [default] err == nil && requestedSigAlgo == 0 ==> !isPSSOid(sigAlgo.Algorithm) && (hashFunc == crypto.SHA256 || hashFunc == crypto.SHA384 || hashFunc == crypto.SHA512 || hashFunc == 0)
+//@   ensures  [default_rsa] err == nil && requestedSigAlgo == 0 && typeis(pub, *zcrypto_rsa.PublicKey) ==> hashFunc == crypto.SHA256
+//@   ensures  [default_ed] err == nil && requestedSigAlgo == 0 ==> (hashFunc == 0 <==> typeis(pub, x_crypto_ed25519.PublicKey))
+//@   modifies nothing
+//@   terminates
+
+// ---------------------------------------------------------------- Create*: the Sign call sites (C03)
+// "Objects the library signs itself verify with their own verification API for every
+// signature algorithm the signing API accepts": CheckSignatureFromKey verifies an RSA-PSS
+// algorithm with VerifyPSS(hash, salt length = hash length) and every other RSA algorithm
+// with VerifyPKCS1v15(hash) (see above), so the signer must be called with *rsa.PSSOptions
+// {SaltLength: PSSSaltLengthEqualsHash (-1), Hash: h} exactly when the algorithm identifier
+// written into the object is the RSA-PSS one, with the plain crypto.Hash h otherwise, and h must
+// be the hash of the requested algorithm. (crypto.Signer: "opts.HashFunc() ... digest must
+// be the result of hashing the input message using the given hash function"; rsa.PrivateKey
+// signs PKCS#1 v1.5 unless opts is *PSSOptions.)
+// Only this data flow is under contract. The functions are long, reflection-heavy and
+// panic on programmer errors inside asn1.Marshal: `maypanic`, `modifies all`; their other
+// callees are assumed heap-neutral (assume_pure, listed as assumptions). The assertions
+// speak about the function-entry values (old) of the template's algorithm and of the
+// package variable oidSignatureRSAPSS, and about SSA values (hashFunc, the algorithm
+// identifier returned by signingParamsForPublicKey, the digest).
+//@ pred signOptsOK(opts, pss, h) = (pss ==> typeis(opts, *zcrypto_rsa.PSSOptions) && unboxed(opts, *zcrypto_rsa.PSSOptions) != nil && unboxed(opts, *zcrypto_rsa.PSSOptions).SaltLength == -1 && unboxed(opts, *zcrypto_rsa.PSSOptions).Hash == h) && (!pss ==> typeis(opts, crypto.Hash) && unboxed(opts, crypto.Hash) == h)
+
+//@ func CreateCertificate
+//@   requires template != nil && parent != nil
+//@   maypanic
+//@   assume_pure marshalPublicKey
+//@   assume_pure subjectBytes
+//@   assume_pure buildExtensions
+//@   at call Signer).Sign assert signOptsOK(arg3, same(signatureAlgorithm.Algorithm, old(oidSignatureRSAPSS)), hashFunc)
+//@   at call Signer).Sign assert old(template.SignatureAlgorithm) != 0 ==> hashFunc == sigHash(old(template.SignatureAlgorithm)) && (same(signatureAlgorithm.Algorithm, old(oidSignatureRSAPSS)) <==> sigIsPSS(old(template.SignatureAlgorithm)))
+//@   at call Signer).Sign assert same(arg2, digest)
+//@   at call hash assert arg0 == hashFunc
+//@   modifies all
+
+//@ func (*Certificate).CreateCRL
+//@   requires c != nil
+//@   maypanic
+//@   at call Signer).Sign assert signOptsOK(arg3, same(signatureAlgorithm.Algorithm, old(oidSignatureRSAPSS)), hashFunc)
+//@   at call Signer).Sign assert same(arg2, digest)
+//@   at call hash assert arg0 == hashFunc
+//@   modifies all
+
+//@ func CreateCertificateRequest
+//@   requires template != nil
+//@   maypanic
+//@   assume_pure marshalPublicKey
+//@   assume_pure marshalSANs
+//@   assume_pure newRawAttributes
+//@   assume_pure ObjectIdentifier).String
+//@   at call Signer).Sign assert signOptsOK(arg3, same(sigAlgo.Algorithm, old(oidSignatureRSAPSS)), hashFunc)
+//@   at call Signer).Sign assert old(template.SignatureAlgorithm) != 0 ==> hashFunc == sigHash(old(template.SignatureAlgorithm)) && (same(sigAlgo.Algorithm, old(oidSignatureRSAPSS)) <==> sigIsPSS(old(template.SignatureAlgorithm)))
+//@   at call Signer).Sign assert same(arg2, digest)
+//@   at call hash assert arg0 == hashFunc
+//@   modifies all
+
+//@ func CreateRevocationList
+//@   requires priv != nil
+//@   maypanic
+//@   assume_pure subjectBytes
+//@   at call Signer).Sign assert signOptsOK(arg3, same(signatureAlgorithm.Algorithm, old(oidSignatureRSAPSS)), hashFunc)
+//@   at call Signer).Sign assert old(template.SignatureAlgorithm) != 0 ==> hashFunc == sigHash(old(template.SignatureAlgorithm)) && (same(signatureAlgorithm.Algorithm, old(oidSignatureRSAPSS)) <==> sigIsPSS(old(template.SignatureAlgorithm)))
+//@   at call Signer).Sign assert same(arg2, input)
+//@   at call Hash).New assert arg0 == hashFunc
+//@   modifies all
